@@ -278,8 +278,78 @@ def generate_anchor(b, die):
             "End AnchorGen."]
 
 
+# ------------------------------------------------------------------ get_url_after_hostname / get_url_after_anchor
+def char_lit(t, die):
+    m = re.fullmatch(r"'(\\?.)'", t)
+    if not m:
+        die("get_url_after_anchor: char literal not recognised: %r" % t)
+    return ord(m.group(1)[-1])
+
+
+def generate_after(b, die):
+    t = norm(_bs.fn_body(b, r"fn get_url_after_hostname<'a>\(url: &'a str, hostname: &str\)\s*->\s*&'a str\s*\{", die))
+    if t != ("letstart=memmem::find(url.as_bytes(),hostname.as_bytes()).unwrap_or(url.len()-hostname.len());"
+             "&url[start+hostname.len()..]"):
+        die("get_url_after_hostname: not recognised: %r" % t)
+    t = norm(_bs.fn_body(
+        b, r"fn get_url_after_anchor<'a>\(url: &'a str, request_hostname: &str, anchor_end: usize\)\s*->\s*&'a str\s*\{", die))
+    m = re.fullmatch(
+        r"ifanchor_end==0\{returnurl;\}"
+        r"letauthority_start=memmem::find\(url\.as_bytes\(\),b\"([^\"]*)\"\)\.map\(\|i\|i\+(\d+)\)\.unwrap_or\((\d+)\);"
+        r"letauthority_len=url\[authority_start\.\.\]\.find\(\|c\|((?:c=='\\?.'\|\|)*c=='\\?.')\)\.unwrap_or\(url\.len\(\)-authority_start\);"
+        r"lethost_search_start=url\[authority_start\.\.authority_start\+authority_len\]\.rfind\(('\\?.')\)"
+        r"\.map\(\|i\|authority_start\+i\+(\d+)\)\.unwrap_or\(authority_start\);"
+        r"get_url_after_hostname\(&url\[host_search_start\.\.\],request_hostname\)\.len\(\)"
+        r"\.checked_add\(request_hostname\.len\(\)-anchor_end\)"
+        r"\.and_then\(\|rest\|url\.len\(\)\.checked_sub\(rest\)\)"
+        r"\.and_then\(\|start\|url\.get\(start\.\.\)\)\.unwrap_or\(\"\"\)", t)
+    if not m:
+        die("get_url_after_anchor: not recognised: %r" % t[:300])
+    needle, skip, nofound, terms, at, plus = m.groups()
+    term_bytes = [char_lit(x[3:], die) for x in terms.split("||")]
+    return ["Module AfterGen.",
+            "(* get_url_after_hostname: first occurrence of the hostname, else `len - len`; the rest after it *)",
+            "Definition after_hostname_shape : string := \"find.unwrap_or(len-len);url[start+len..]\".",
+            "Definition zero_anchor_is_whole_url : bool := true.",
+            "Definition scheme_sep : list N := %s." % bytes_list(needle),
+            "Definition scheme_sep_skip : N := %s." % skip,
+            "Definition no_scheme_start : N := %s." % nofound,
+            "Definition authority_terminators : list N := [%s]." % "; ".join(str(x) for x in term_bytes),
+            "Definition userinfo_sep : N := %d." % char_lit(at, die),
+            "Definition userinfo_skip : N := %s." % plus,
+            "Definition rest_shape : string := \"after_hostname(url[host_search_start..]).len+(host.len-anchor_end);url.len-rest;url.get(start..)|empty\".",
+            "End AfterGen."]
+
+
+def bytes_list(s):
+    return "[%s]" % "; ".join(str(x) for x in s.encode("utf-8"))
+
+
+def strip_comments_keep_strings(s):
+    """like c01_blocker_structure.strip_comments, but a `//` inside a "string literal" is text"""
+    out = []
+    i, n = 0, len(s)
+    while i < n:
+        c = s[i]
+        if c == '"':
+            j = i + 1
+            while j < n and s[j] != '"':
+                j += 2 if s[j] == "\\" else 1
+            out.append(s[i:j + 1])
+            i = j + 1
+        elif s.startswith("//", i):
+            while i < n and s[i] != "\n":
+                i += 1
+        elif s.startswith("/*", i):
+            i = s.index("*/", i) + 2
+        else:
+            out.append(c)
+            i += 1
+    return "".join(out)
+
+
 def generate(src, die, coq_str):
-    b = _bs.strip_comments(src("src/filters/network_matchers.rs"))
+    b = strip_comments_keep_strings(src("src/filters/network_matchers.rs"))
 
     def body(name):
         return _bs.fn_body(b, r"fn %s<'a, FiltersIter>\(" % name, die)
@@ -368,4 +438,4 @@ def generate(src, die, coq_str):
            "Definition hostname_matchers : list (string * (mform * htail)) := [%s]." % "; ".join(
                "(%s, (%s, %s))" % (coq_str(n), coq_form(me), tl) for n, me, tl in hostm),
            "End MatchGen."]
-    return out + generate_anchor(b, die)
+    return out + generate_anchor(b, die) + generate_after(b, die)
